@@ -68,20 +68,20 @@ theorem encBranch_eq (ver : Ver) (H : Bytes → Bytes) (pk : Nibs) (v : Option B
     intro i _
     unfold kidOf
     cases h : (cs i).isNil <;> simp
-  have hkids : (List.finRange 16).flatMap (fun i =>
-        match (kidOf ver H (cs i) []).1 with | none => [] | some d => scaleBytes d) =
+  have hkids : (List.finRange 16).flatMap (fun i => kidBytes (kidOf ver H (cs i) []).1) =
       (List.finRange 16).flatMap (fun i =>
         if (cs i).isNil then [] else scaleBytes (merkleValue H (encodeNode ver H (cs i)))) := by
     congr 1
     funext i
     unfold kidOf
-    cases h : (cs i).isNil <;> simp
+    cases h : (cs i).isNil <;> simp [kidBytes]
   simp only [encBranch]
   rw [hbm, hkids]
   cases v with
-  | none => simp [encodeNode]
+  | none => simp [encodeNode, branchHeader, optValueBytes]
   | some x =>
-    cases h : mustBeHashed ver x <;> simp [encodeNode, encodeValue, valueBytes, h]
+    cases h : mustBeHashed ver x <;>
+      simp [encodeNode, encodeValue, valueBytes, h, branchHeader, optValueBytes]
 
 theorem kidOf_fst (ver : Ver) (H : Bytes → Bytes) (c : Trie) (q q' : Nibs) :
     (kidOf ver H c q).1 = (kidOf ver H c q').1 := by
